@@ -151,6 +151,9 @@ class Evaluator(object):
         self.context_of = {}
         # callable(Sym) -> bool: does the name denote a class
         self.sym_is_class = None
+        # names bound to plain python values (stand-ins for imported
+        # constants such as os.path.sep)
+        self.constants = {}
 
     # ------------------------------------------------------------------
 
@@ -386,6 +389,8 @@ class Evaluator(object):
     def x_Name(self, e, env):
         if e.id in env:
             return env[e.id]
+        if e.id in self.constants:
+            return self.constants[e.id]
         if e.id in self.functions:
             return ('pyfunc', self.functions[e.id])
         if e.id in ('None', 'True', 'False'):
@@ -449,7 +454,10 @@ class Evaluator(object):
             return ('regex', base, e.attr)
         if isinstance(base, str) and e.attr in (
                 'startswith', 'endswith', 'strip', 'join', 'format', 'lower',
-                'upper', 'replace', 'split', 'lstrip', 'rstrip'):
+                'upper', 'replace', 'split', 'lstrip', 'rstrip', 'encode',
+                'splitlines', 'isdigit', 'find', 'index', 'count'):
+            return ('pyfunc', getattr(base, e.attr))
+        if isinstance(base, bytes) and e.attr in ('decode',):
             return ('pyfunc', getattr(base, e.attr))
         if isinstance(base, (list, set, dict)) and e.attr in (
                 'append', 'pop', 'add', 'get', 'extend', 'update', 'keys',
@@ -664,13 +672,19 @@ class Evaluator(object):
                     return any(isinstance(t, Sym) and self.is_subclass(
                         cls, t.name.split('.')[-1]) for t in types)
                 builtin = {'int': int, 'str': str, 'list': list,
-                           'tuple': tuple, 'dict': dict, 'bool': bool}
+                           'tuple': tuple, 'dict': dict, 'bool': bool,
+                           'float': float, 'set': set,
+                           'frozenset': frozenset}
                 for t in types:
                     if isinstance(t, Sym) and t.module == 'builtins' and \
                             t.name in builtin and isinstance(
                                 obj, builtin[t.name]):
                         return True
                     if isinstance(t, type) and isinstance(obj, t):
+                        return True
+                    if isinstance(t, tuple) and len(t) == 2 and \
+                            t[0] == 'pyfunc' and isinstance(t[1], type) \
+                            and isinstance(obj, t[1]):
                         return True
                 return False
             if n == 'len' and n not in env:
